@@ -3,7 +3,7 @@ import copy
 import re
 
 from .. import hooks
-from ..gen import big_n, canon, dt_us, mk_event, rand_grid, td_us
+from ..gen import big_n, canon, dt_us, exact, mk_event, rand_grid, td_us
 from . import _tx
 from ._tx import exc_viol, is_event_list, tmod, unmodified
 
@@ -64,7 +64,7 @@ def _frame(label, own, old_events, result):
                                                      f"after={(dt_us(r.timestamp), td_us(r.duration), r.id)}")]
         od = {k: v for k, v in o.data.items() if k not in own}
         rd = {k: v for k, v in r.data.items() if k not in own}
-        if canon(od) != canon(rd):
+        if exact(od) != exact(rd):
             return [(f"{label}-unrelated-data-changed", f"pos={i} before={canon(od)[:300]} after={canon(rd)[:300]}")]
     return []
 
@@ -149,7 +149,7 @@ def post_split(old, oldkw, result, exc, after, afterkw):
         return v
     for i, (o, r) in enumerate(zip(events, result)):
         if "url" not in o.data:
-            if canon(o.data) != canon(r.data):
+            if exact(o.data) != exact(r.data):
                 return [("split-touched-event-without-url", f"pos={i} before={canon(o.data)[:200]} after={canon(r.data)[:200]}")]
             continue
         want = ref_split_url(o.data["url"])
